@@ -88,7 +88,7 @@ Proof. exact (@AllocMin.ms_position_storage). Qed.
 Print Assumptions C14_position_storage.
 End M_C14_position_storage.
 
-(* THE ALLOCATION IS THE SOURCE: AllocGenSpec.alloc_pre_shape / alloc_tail_shape are the Gallina functions harness/translate.py renders from the preamble of allocate_snapshots (the three clamps to max_n - 1) and from its last statements (allocation = [DISK for _ in range(snapshots)]; for i, _ in sorted(enumerate(weights), key=itemgetter(1), reverse=True)[:snapshots_in_ram]: allocation[i] = RAM -- a stable descending sort, a prefix slice, list assignment); Gen/AllocGen.v re-translates the current source on every run and proves the result equal to these terms by conversion.  Multistage.allocate, on which C14_alloc_min_disk / C14_min_disk_accesses are stated, is exactly that preamble, the dry run of the model, and that allocation, for all arguments (the dry run itself -- functools.singledispatch handlers over nonlocal state -- is compared textually: AllocPins) *)
+(* ALLOCATE_SNAPSHOTS IS THE SOURCE: AllocGenSpec.alloc_pre_shape / handle_shape / alloc_tail_shape are the Gallina functions harness/translate.py renders from allocate_snapshots: the preamble (the three clamps to max_n - 1); the functools.singledispatch handlers action_copy / action_move / action_write / action_pass over the nonlocal snapshot_i and the list weights, as one step on (snapshot_i, weights) per action type (TypeError for an unregistered type; weights[i] += w is addat; write_weight = read_weight = 1 and delete_weight = 0 are the defaults of the signature, the only values the constructor calls it with); and the last statements (allocation = [DISK for _ in range(snapshots)]; for i, _ in sorted(enumerate(weights), key=itemgetter(1), reverse=True)[:snapshots_in_ram]: allocation[i] = RAM -- a stable descending sort, a prefix slice, list assignment).  Gen/AllocGen.v re-translates the current source on every run and proves the result equal to these terms by conversion; the driver loop (next(cp_schedule); action(cp_action); break at EndReverse), the dry-run constructor call and the assert are compared textually by the same generator.  Multistage.allocate, on which C14_alloc_min_disk / C14_min_disk_accesses are stated, is exactly that preamble, the handlers folded over the dry run of the model (weigh_shape), and that allocation, for all arguments *)
 Module M_C14_allocate_is_source.
 Import AllocGenSpec.
 Theorem C14_allocate_is_source :
@@ -97,7 +97,7 @@ Theorem C14_allocate_is_source :
          (let
           '(ram', _, sn) := alloc_pre_shape n ram disk in
            match
-             Multistage.weigh
+             weigh_shape (Z.of_nat (Z.to_nat sn))
                (Multistage.run (Multistage.fuel_for n)
                   {|
                     Multistage.max_n := n;
@@ -108,9 +108,19 @@ Theorem C14_allocate_is_source :
            | Actions.Ok (w, _) => Actions.Ok (w, alloc_tail_shape w sn ram')
            | Actions.Err e => Actions.Err e
            end).
-Proof. exact (@AllocGenSpec.allocate_is_shape). Qed.
+Proof. exact (@AllocGenSpec.allocate_is_source). Qed.
 Print Assumptions C14_allocate_is_source.
 End M_C14_allocate_is_source.
+
+(* the weighing of the model (Multistage.weigh) is the fold of the translated handlers over the outcomes of the dry run, from every depth >= -1 and every weight list *)
+Module M_C14_weigh_is_source.
+Import AllocGenSpec.
+Theorem C14_weigh_is_source :
+  forall (acts : list Actions.outcome) (d : Z) (w : list Z),
+         -1 <= d -> Multistage.weigh acts d w = weigh_shape (Z.of_nat (length w)) acts d w.
+Proof. exact (@AllocGenSpec.weigh_is_shape). Qed.
+Print Assumptions C14_weigh_is_source.
+End M_C14_weigh_is_source.
 
 (* last clause, the allocation step: for any non-negative per-position weights w, the labelling allocate_snapshots computes (alloc_labels w r) puts the least total weight on DISK among all RAM/DISK labellings with at most r RAM positions *)
 Module M_C14_alloc_min_disk.
